@@ -192,8 +192,13 @@ func bsWorldGen(r *Run, rng *Rng, w *bsWorld, steps int, allowRm bool) {
 			if refill {
 				w.exec(r, fmt.Sprintf("q exitroot %d", dcBefore-1)) // the last lookup before the reorg …
 			}
+			haltedBefore := w.p.IsHalted()
 			w.exec(r, fmt.Sprintf("reorg %d", b))
 			r.Count("branch:reorg")
+			if haltedBefore && b >= g.first && b <= g.tip && w.p.IsHalted() {
+				// a node that only ever saw the blocks below b is not halted and serves data
+				r.Fail(fmt.Sprintf("[C04,C14] a reorg from block %d removed processed blocks (the store ended at %d) and the bridge syncer is still halted: its queries keep failing where a node that never saw those blocks answers", b, g.tip), append([]string{"new"}, w.lines...))
+			}
 			if b <= g.tip {
 				r.Count("branch:reorg-removes")
 				// deposit count on the surviving chain = count before the first removed block
